@@ -287,7 +287,7 @@ func init() {
 	}
 	reg(cx+"BlockHeight", func(e *Exec, s *State, f *Frame, x *ssa.Call, a []Val) ([]*State, bool) {
 		env := s.env()
-		if h, ok := env.CtxHeight[a[0].(CtxV).ID]; ok {
+		if h := a[0].(CtxV).Height; h != "" {
 			return ret(f, x, Sym{S: h})
 		}
 		if env.Height == "" {
@@ -298,7 +298,7 @@ func init() {
 	})
 	reg(cx+"BlockTime", func(e *Exec, s *State, f *Frame, x *ssa.Call, a []Val) ([]*State, bool) {
 		env := s.env()
-		if t, ok := env.CtxTime[a[0].(CtxV).ID]; ok {
+		if t := a[0].(CtxV).Time; t != "" {
 			return ret(f, x, TimeV{T: t})
 		}
 		if env.Now == "" {
@@ -308,14 +308,14 @@ func init() {
 		return ret(f, x, TimeV{T: env.Now})
 	})
 	reg(cx+"WithBlockTime", func(e *Exec, s *State, f *Frame, x *ssa.Call, a []Val) ([]*State, bool) {
-		env := s.env()
-		env.CtxTime[a[0].(CtxV).ID] = a[1].(TimeV).T
-		return ret(f, x, a[0])
+		c := a[0].(CtxV)
+		c.Time = a[1].(TimeV).T
+		return ret(f, x, c)
 	})
 	reg(cx+"WithBlockHeight", func(e *Exec, s *State, f *Frame, x *ssa.Call, a []Val) ([]*State, bool) {
-		env := s.env()
-		env.CtxHeight[a[0].(CtxV).ID] = a[1].(Sym).S
-		return ret(f, x, a[0])
+		c := a[0].(CtxV)
+		c.Height = a[1].(Sym).S
+		return ret(f, x, c)
 	})
 	reg(cx+"ChainID", func(e *Exec, s *State, f *Frame, x *ssa.Call, a []Val) ([]*State, bool) {
 		env := s.env()
@@ -357,13 +357,8 @@ func init() {
 		env.NextCtx++
 		child := env.NextCtx
 		env.L[child] = copyLayer(env.L[parent])
-		if t, ok := env.CtxTime[parent]; ok {
-			env.CtxTime[child] = t
-		}
-		if t, ok := env.CtxHeight[parent]; ok {
-			env.CtxHeight[child] = t
-		}
-		return ret(f, x, Tuple{CtxV{child}, WriteCacheV{child, parent}})
+		pc := a[0].(CtxV)
+		return ret(f, x, Tuple{CtxV{ID: child, Time: pc.Time, Height: pc.Height}, WriteCacheV{child, parent}})
 	})
 	for _, m := range []string{"GasMeter", "EventManager", "Logger", "BlockGasMeter"} {
 		reg(cx+m, func(e *Exec, s *State, f *Frame, x *ssa.Call, a []Val) ([]*State, bool) {
@@ -527,8 +522,15 @@ func init() {
 	})
 	reg("github.com/cosmos/cosmos-sdk/types/address.Module", func(e *Exec, s *State, f *Frame, x *ssa.Call, a []Val) ([]*State, bool) {
 		// derived module addresses (pair escrow, pool reserve): injective in (module, derivation key)
-		k := e.toBytesV(s, a[1])
-		return ret(f, x, BytesV{Segs: []Seg{{Kind: "addr", T: "(deraddr " + e.strID(a[0]) + " " + e.bytesID(s, k) + ")"}}})
+		// variadic derivation keys: [][]byte
+		var k BytesV
+		if sl, ok := a[1].(SliceV); ok && sl.ID != 0 {
+			for _, el := range e.sliceElems(s, sl) {
+				k.Segs = append(k.Segs, e.toBytesV(s, el).Segs...)
+				k.Segs = append(k.Segs, Seg{Kind: "c", B: []byte{0xff}})
+			}
+		}
+		return ret(f, x, BytesV{Segs: []Seg{{Kind: "addr", T: e.derAddr(e.strID(a[0]), e.bytesID(s, k))}}})
 	})
 	reg("github.com/cosmos/cosmos-sdk/types/address.Derive", func(e *Exec, s *State, f *Frame, x *ssa.Call, a []Val) ([]*State, bool) {
 		return ret(f, x, BytesV{Segs: []Seg{{Kind: "addr", T: "(deraddr2 " + e.bytesID(s, e.toBytesV(s, a[0])) + " " + e.bytesID(s, e.toBytesV(s, a[1])) + ")"}}})
@@ -609,7 +611,7 @@ func init() {
 		env := s.env()
 		env.NextCtx++
 		env.L[env.NextCtx] = &Layer{Stores: map[string][]StoreEntry{}, Closed: true}
-		return ret(f, x, CtxV{env.NextCtx})
+		return ret(f, x, CtxV{ID: env.NextCtx})
 	})
 	reg(vp+"AnyOf", func(e *Exec, s *State, f *Frame, x *ssa.Call, a []Val) ([]*State, bool) {
 		iv := a[0].(IfaceV)
@@ -749,4 +751,19 @@ func (e *Exec) anyID(s *State, v Val) string {
 		return e.bytesID(s, x)
 	}
 	return e.sol.fresh("fmtarg", false)
+}
+
+// derAddr: derived module address; injective (inverse functions asserted per instance) and below every plain module address
+func (e *Exec) derAddr(mod, key string) string {
+	t := "(deraddr " + mod + " " + key + ")"
+	e.smu.Lock()
+	first := !e.seen[t]
+	e.seen[t] = true
+	e.smu.Unlock()
+	if first {
+		e.sol.axiom("(< " + t + " (- 1000000000000))")
+		e.sol.axiom("(= (deraddr_m " + t + ") " + mod + ")")
+		e.sol.axiom("(= (deraddr_k " + t + ") " + key + ")")
+	}
+	return t
 }
